@@ -24,7 +24,7 @@ FINISH = dict(
     trusted=['zfpy', 'numpy', 'segyio', 'TLC'])
 
 SOURCES = [((12, 13, 150), 16, (4, 4, -1), 2), ((17, 18, 40), 32, (8, 8, 16), 1), ((9, 20, 70), 32, (4, 8, 32), 3), ((33, 18, 9), 32, (16, 16, 4), 0),
-           ((70, 66, 9), 2, (64, 64, 4), 1), ((8, 9, 150), 16, (4, 4, -1), 1, 1.001), ((8, 16, 300), 8, (4, 4, -1), 2), ((5, 6, 2100), 1, (4, 4, -1), 1)]
+           ((70, 66, 9), 2, (64, 64, 4), 1), ((8, 9, 150), 16, (4, 4, -1), 1, 1.001), ((17, 18, 40), 32, (16, 16, 4), 1, 0.125), ((8, 16, 300), 8, (4, 4, -1), 2), ((5, 6, 2100), 1, (4, 4, -1), 1)]
 
 
 def make_dup_source(d, k, seed):
@@ -201,13 +201,13 @@ def judge(run, S, mode, box, r, ev):
             run.drift(f'{case}: data section differs from SgzTransform!CropCopy ({len(want)} vs {len(r["data"])} bytes, n {ev["n"]})')
         else:
             run.traces_validated += 1
-    return {'T': S['T'], 'lo': lo, 'hi': hi, 'H': r['H'], 'case': case}
+    return {'T': S['T'], 'lo': lo, 'hi': hi, 'H': r['H'], 'case': case, 'z0_us': S.get('z0_us', 8000)}
 
 
 def prepare(run):
     d = env.subdir('c10src')
     quick = run.tier == 'quick'
-    specs = SOURCES[:6] if quick else SOURCES
+    specs = SOURCES[:7] if quick else SOURCES
     S = []
     for k, spec in enumerate(specs + ['dup']):
         if spec == 'dup':
@@ -223,6 +223,20 @@ def prepare(run):
         dz_us = int(round(1000 * (spec[4] if len(spec) > 4 else 4.0)))
         S.append({'path': p, 'label': f'numpy{shape}r{rate}b{bs}h{extra}', 'F': fc.F, 'snap': _snapshot(p), 'data': raw[8192:8192 + H['data_blocks'] * 4096],
                   'T': c03.truth(3, shape, fc.F['b'], rate, shape[0] * shape[1], (100, 2), (-7, 3), 8, dz_us, source_format=20 if extra != 'dup' else 0)})
+    # a source that already uses the float64 sample-axis fields: a crop of the 1001 us source starting between whole milliseconds
+    from seismic_zfp.cropping import SgzCropper
+    frac = [x for x in S if '(17, 18, 40)' in x['label'] and 'h1' in x['label'] and x['T']['dz_us'] == 125]
+    if frac:
+        p2 = os.path.join(d, 'cropfrac.sgz')
+        with env.quiet():
+            with SgzCropper(frac[0]['path']) as c:
+                c.write_cropped_file_by_indexes(p2, None, None, (4, 40))          # first sample 8.5 ms
+        fc = session.FileCase(p2)
+        with open(p2, 'rb') as f:
+            raw = f.read()
+        F, meta, H = c03.parse(p2)
+        S.append({'path': p2, 'label': 'crop-of-125us(17, 18, 36)', 'F': fc.F, 'snap': _snapshot(p2), 'data': raw[8192:8192 + H['data_blocks'] * 4096],
+                  'T': c03.truth(3, (17, 18, 36), fc.F['b'], 32, 17 * 18, (100, 2), (-7, 3), 8, 125, source_format=20), 'z0_us': 8500})
     return S
 
 
@@ -255,7 +269,7 @@ def run(run):
         T['F'] = dict(T['F'], n=n, ntr=n[0] * n[1])
         T['il0'] = T['il0'] + c['lo'][0] * T['ilstep']
         T['xl0'] = T['xl0'] + c['lo'][1] * T['xlstep']
-        T['z0'] = T['z0'] + (c['lo'][2] * T['dz_us']) // 1000
+        T['z0'] = (c['z0_us'] + c['lo'][2] * T['dz_us']) // 1000        # the integer word holds whole milliseconds
         T['check_version'] = False
         items.append({'T': T, 'H': c['H']})
     if items:
@@ -285,7 +299,7 @@ def replay(run, rep):
         T['F'] = dict(T['F'], n=n, ntr=n[0] * n[1])
         T['il0'] += cc['lo'][0] * T['ilstep']
         T['xl0'] += cc['lo'][1] * T['xlstep']
-        T['z0'] += (cc['lo'][2] * T['dz_us']) // 1000
+        T['z0'] = (cc['z0_us'] + cc['lo'][2] * T['dz_us']) // 1000
         T['check_version'] = False
         o = tlc.oracle('Gen_Conform', {'items': [{'T': T, 'H': cc['H']}]}, key='items')['items'][0]
         run.check(not o['failed'], 'C10.conformant', c, [f[0] for f in o['failed']], [])
